@@ -217,7 +217,8 @@ def gen_recognition(seed, big):
     rnd = random.Random(seed + 7)
     out = []
     for ds, de in DELIMS + [('aab', 'bba'), ('// --', '-- //'), ('「「', '」」'), ('/* «', '» */'), ('«<', '>»'), ('é<', '>é'), ('<%#', '-%>'), ('@@', '@@'), ('#', '##'), ('##', '#'), ('|', '|')]:
-        atoms = sorted(set(list(ds) + list(de) + [' ', 'x', 'あ', '\\', '\n', '"', ds, de, ds + 'r' + de, ds + de]))
+        atoms = sorted(set(list(ds) + list(de) + [' ', 'x', 'あ', '\\', '\n', '"', ds, de, ds + 'r' + de, ds + de]
+                           + [chr(0x0400 | ord(c)) for c in ds + de if ord(c) < 0x80] + [chr(0x6500 | ord(c)) for c in (ds + de)[:2] if ord(c) < 0x80]))
         for _ in range(500 if big else 150):
             src = ''.join(rnd.choice(atoms) for _ in range(rnd.randint(0, 8)))
             want = ref_tokenize(src, ds, de)
@@ -773,7 +774,8 @@ def gen_unwrap_wrappers(seed, big):
         w1, w2 = ind + rnd.choice(w1s), ind + rnd.choice(w2s)
         tag = rnd.choice([f"{RM} name='f1' unwrap-block", f"{TL} to='{PAST}' unwrap-block", f"{RM} name='f1' c=\"moved from C:\\legacy\\\" unwrap-block",
                           f"{TL} to='{PAST}' note='it''s' unwrap-block".replace("''", '"'), f"{RM} name='f1'\n  unwrap-block",
-                          f"{RM} name='f1' unwrap-block=\"true\"", f"{TL} unwrap-block='' to='{PAST}'"])
+                          f"{RM} name='f1' unwrap-block=\"true\"", f"{TL} unwrap-block='' to='{PAST}'",
+                          f"{TL} to = '{PAST}' unwrap-block", f"{RM} name ='f1' unwrap-block", f"{TL} unwrap-block to  =  '{PAST}'"])
         close = RM if tag.startswith(RM) else TL
         lines = [pre, ind + f'<{tag}>', w1] + body + [w2, ind + f'</{close}>'] + ([post] if post else [])
         src = '\n'.join(lines) + ('\n' if rnd.random() < 0.7 else '')
@@ -973,7 +975,7 @@ def gen_opaque_decisions(seed, big):
             (RM, "name='f1' c='unwrap-block'", True), (RM, "c=\"x unwrap-block y\" name='f1'", True),
             (TL, f"to='{PAST}' c='skip'", True), (RM, "name='f1' c=\" skip \"", True), (RM, "c='skip' name='f1'", True),
             (TL, f"c=\"to='{FUTURE}'\" to='{PAST}'", True), (TL, f"c='to=\"{PAST}\"' to='{FUTURE}'", False),
-            (RM, "c=\"name='f1'\" name='zz'", False), (RM, "c=\"name='zz'\" name='f1'", True),
+            (RM, "c=\"name='f1'\" name='zz'", False), (RM, "name='zz' c='f1'", False), (RM, "c=\"f1\" name='zz' d='f1'", False), (TL, f"c='{PAST}' to='{FUTURE}'", False), (RM, "c=\"name='zz'\" name='f1'", True),
             (TL, f"to='{PAST}' c='a\n * b unwrap-block\n * skip'", True), (RM, f"name='f1' c='{ds.strip() or ds}'", True),
             (TL, f"to='{PAST}'\nc='{ds.strip() or ds}'", True), (RM, f"name='f1'\n  c=\"{ds.strip() or ds} x\"", True), (RM, f"c='see\n{ds.strip() or ds} old'\n name='f1'", True),
             (TL, f"to='{PAST}' c='= \" ='", True), (RM, "name='f1' c=\"it's = 'skip'\"", True),
@@ -1198,6 +1200,23 @@ def gen_case_sensitive(seed, big):
     return out
 
 
+def gen_equal_tag_names(seed, big):
+    """C04/C06 when BOTH kinds of element are configured under the same tag name (the statements are silent about this
+    configuration; the expectation is how the crate resolves it: the removal-marker reading wins, i.e. `name` and the
+    target set decide, `to` is just another attribute)"""
+    out = []
+    for ds, de in (('<', '>'), ('<!-- <', '> -->')):
+        def doc(attrs):
+            return f"a\n{ds}temp {attrs}{de}\nb\n{ds}/temp{de}\nc\n"
+        for attrs, targets, ready in ((f"to=\"{PAST}\"", ['f1'], False), (f"to=\"{PAST}\"", [], False), ("name='f1'", ['f1'], True), (f"name='zz' to='{PAST}'", ['f1'], False),
+                                      (f"name='f1' to='{FUTURE}'", ['f1'], True), (f"to='{PAST}' unwrap-block", ['f1'], False)):
+            src = doc(attrs)
+            exp = 'a\nc\n' if ready else src
+            out.append((dict(cfg(tl_tag='temp', rm_tag='temp', targets=targets), mode='clean', source=src, ds=ds, de=de),
+                        (lambda e, a, t: lambda r: None if r.get('ok') and r.get('output') == e else f'both tag names configured as `temp`, attributes [{a}], targets {t}: the removal-marker reading decides: ' + json.dumps(r, ensure_ascii=False)[:160])(exp, attrs, targets)))
+    return out
+
+
 def gen_blanklines(seed, big):
     """C13: block-style removal with b blank lines before and a after leaves a+b-[a>0 and b>0] blank lines; lines intact"""
     out = []
@@ -1240,6 +1259,21 @@ def gen_lines_intact(seed, big):
                                 return f'surviving line not intact: {nb} (output {r["output"]!r})'
                             return None
                         out.append((dict(cfg(), mode='clean', source=src, ds='<', de='>'), oracle))
+    # the last surviving line ends in blanks and the file has no final line break: the line stays byte for byte
+    for ind in ('', '  '):
+        for last in ('last line  ', 'last line\t', '  x  \t '):
+            for where in ('before', 'after'):
+                blk = ind + f"<{TL} to='{PAST}'>\n" + ind + "expired\n" + ind + f"</{TL}>\n"
+                src = ('first line\n' + blk + last) if where == 'before' else ('first line\n' + 'mid  \n' + blk + last)
+                want = [l for l in src.replace(blk, '').split('\n') if l.strip(WS)]
+                def oracle(r, want=want, src=src):
+                    if not r.get('ok'):
+                        return 'clean panicked: ' + str(r.get('panic'))[:160]
+                    nb = [l for l in r['output'].split('\n') if l.strip(WS)]
+                    if nb != want:
+                        return f'surviving lines (trailing blanks included) are {nb!r}, expected {want!r} (source {src!r})'
+                    return None
+                out.append((dict(cfg(), mode='clean', source=src, ds='<', de='>'), oracle))
     # runs of 2-5 removed sibling blocks on directly adjacent lines (their tidy intervals chain up), indented or not,
     # at top level or inside a pending parent; the lines around the run survive byte for byte
     for n in (2, 3, 4, 5):
@@ -1318,6 +1352,11 @@ def gen_list_regions(seed, big):
         if rnd.random() < 0.7:
             lines.append('tail')
         src = '\n'.join(lines) + ('\n' if final_nl else '')
+        bom = rnd.random() < 0.15
+        if bom:
+            # a byte order mark is an ordinary (3-byte) character of line 1
+            src = '\ufeff' + src
+            pass
         crlf = rnd.random() < 0.3
         if crlf:
             src = src.replace('\n', '\r\n')      # CRLF text: line numbers and regions must be the same
@@ -1506,7 +1545,7 @@ def _back_same(t, d):
 
 
 GENERATORS = {
-    'C01': [gen_totality], 'C04': [gen_identity, gen_identity_unwrappable, gen_identity_unrecognised, gen_identity_unexpired, gen_identity_decisions, gen_tag_whitespace, gen_case_sensitive], 'C07': [gen_partition], 'C08': [gen_recognition, gen_recognition_entry], 'C05': [gen_expiry, gen_env_independent_expiry], 'C06': [gen_marker, gen_tag_whitespace, gen_case_sensitive],
+    'C01': [gen_totality], 'C04': [gen_identity, gen_identity_unwrappable, gen_identity_unrecognised, gen_identity_unexpired, gen_identity_decisions, gen_tag_whitespace, gen_case_sensitive, gen_equal_tag_names], 'C07': [gen_partition], 'C08': [gen_recognition, gen_recognition_entry], 'C05': [gen_expiry, gen_env_independent_expiry], 'C06': [gen_marker, gen_tag_whitespace, gen_case_sensitive, gen_equal_tag_names],
     'C09': [gen_grammar, gen_opaque_decisions], 'C10': [gen_pairing], 'C02': [gen_blocks, gen_inline, gen_nested_text_survives, gen_unwrap_crlf_text, gen_odd_whitespace_lines, gen_tag_whitespace, gen_large_clean, gen_case_sensitive], 'C03': [gen_blocks, gen_inline, gen_nested_text_survives, gen_unwrap_crlf_text, gen_closer_attrs, gen_large_clean, gen_doubled_delims], 'C11': [gen_blocks, gen_unwrap_wrappers, gen_unwrap_four_lines, gen_identity_unwrappable, gen_unwrap_crlf_text, gen_unwrap_comments], 'C17': [gen_list_all],
     'C12': [gen_dedent, gen_dedent_nested, gen_dedent_crlf], 'C13': [gen_blanklines, gen_lines_intact, gen_odd_whitespace_lines], 'C14': [gen_inline, gen_dedent_nested, gen_unwrap_lines_intact, gen_unwrap_lines_intact_crlf], 'C15': [gen_list_regions, gen_env_independent_list, gen_large_list],
 }
